@@ -27,6 +27,7 @@ from holopy.core.errors import raise_fitting_api_error
 from holopy.scattering.errors import (MultisphereFailure, TmatrixFailure,
                                       InvalidScatterer, MissingParameter)
 from holopy.scattering.interface import calc_holo, interpret_theory
+from holopy.scattering.scatterer import RigidCluster
 from holopy.inference import prior
 from holopy.core.mapping import Mapper, read_map, edit_map_indices
 
@@ -203,6 +204,11 @@ class Model(HoloPyObject):
                 dummy_parameters[key] = [0 for _ in value]
             else:
                 dummy_parameters[key] = 0
+        if isinstance(scatterer, RigidCluster):
+            # RigidCluster.from_parameters returns the equivalent Spheres,
+            # which would forget the rotation and translation parameters
+            return RigidCluster(
+                scatterer.spheres.from_parameters(dummy_parameters))
         return scatterer.from_parameters(dummy_parameters)
 
     def ensure_parameters_are_listlike(self, pars):
